@@ -2,12 +2,15 @@ package harness
 
 import (
 	"encoding/binary"
+	"encoding/hex"
 	"fmt"
 	"math/rand"
+	"strings"
 	"testing"
 	"time"
 
 	"github.com/tellor-io/layer/utils"
+	oraclekeeper "github.com/tellor-io/layer/x/oracle/keeper"
 	bridgetypes "github.com/tellor-io/layer/x/bridge/types"
 	disputetypes "github.com/tellor-io/layer/x/dispute/types"
 	oracletypes "github.com/tellor-io/layer/x/oracle/types"
@@ -109,15 +112,23 @@ func TestC08History(t *testing.T) {
 					if r.Intn(3) == 0 {
 						qd = pick(r, w.queries...)
 					}
-					step("SubmitValue", nil, func() {
-						w.deliver("SubmitValue", rep, nil, func(ctx sdk.Context) error {
-							_, err := w.oracleMS.SubmitValue(ctx, &oracletypes.MsgSubmitValue{Creator: w.accts[rep].String(), QueryData: qd, Value: randHex(r, 64)})
-							if err == nil {
-								w.noteReport(ctx, utils.QueryIDFromData(qd), w.accts[rep])
-							}
-							return err
+					qds := [][]byte{qd}
+					if r.Intn(3) == 0 {
+						// reports on several queries in one block: their aggregates share the block of the deciding report
+						qds = append(qds, pick(r, w.queries...), pick(r, w.queries...))
+					}
+					for _, qd := range qds {
+						qd := qd
+						step("SubmitValue", nil, func() {
+							w.deliver("SubmitValue", rep, nil, func(ctx sdk.Context) error {
+								_, err := w.oracleMS.SubmitValue(ctx, &oracletypes.MsgSubmitValue{Creator: w.accts[rep].String(), QueryData: qd, Value: randHex(r, 64)})
+								if err == nil {
+									w.noteReport(ctx, utils.QueryIDFromData(qd), w.accts[rep])
+								}
+								return err
+							})
 						})
-					})
+					}
 				case 6:
 					step("WithdrawTokens", nil, func() {
 						w.deliver("WithdrawTokens", a, nil, func(ctx sdk.Context) error {
@@ -132,6 +143,9 @@ func TestC08History(t *testing.T) {
 					rep := pick(r, w.recent...)
 					if r.Intn(5) == 0 && len(w.accts) > 2 {
 						rep.Reporter = w.accts[r.Intn(2)].String() // name the other reporter
+					}
+					if r.Intn(4) == 0 {
+						rep.Reporter = strings.ToUpper(rep.Reporter) // the all-upper-case spelling of the same address
 					}
 					cat := pick(r, disputetypes.Warning, disputetypes.Minor, disputetypes.Major)
 					pct := map[disputetypes.DisputeCategory]int64{disputetypes.Warning: 100, disputetypes.Minor: 20, disputetypes.Major: 1}[cat]
@@ -177,6 +191,9 @@ func TestC08History(t *testing.T) {
 					}
 					id := pick(r, w.disputes...)
 					rep := pick(r, w.recent...)
+					if r.Intn(4) == 0 {
+						rep.Reporter = strings.ToUpper(rep.Reporter)
+					}
 					accepted := false
 					var flags []string
 					d, err := w.s.Disputekeeper.Disputes.Get(w.ctx, id)
@@ -245,6 +262,15 @@ func TestC08History(t *testing.T) {
 							ta, e2 := w.s.Oraclekeeper.GetTimestampAfter(w.ctx, qid, tt)
 							ca, cts, e3 := w.s.Oraclekeeper.GetCurrentAggregateReport(w.ctx, qid)
 							ba, bts, e4 := w.s.Oraclekeeper.GetAggregateBefore(w.ctx, qid, tt)
+							if pi%2 == 1 {
+								// the same lookup through the query endpoint (it runs in the block that made the newest aggregate)
+								resp, qerr := oraclekeeper.NewQuerier(w.s.Oraclekeeper).GetDataBefore(w.ctx, &oracletypes.QueryGetDataBeforeRequest{QueryId: hex.EncodeToString(qid), Timestamp: T})
+								if qerr != nil || resp == nil {
+									ba, e4 = nil, fmt.Errorf("not found")
+								} else {
+									ba, bts, e4 = resp.Aggregate, time.UnixMilli(int64(resp.Timestamp)), nil
+								}
+							}
 							ya, e5 := w.s.Oraclekeeper.GetAggregateByTimestamp(w.ctx, qid, tt)
 							ia, its, e6 := w.s.Oraclekeeper.GetAggregateByIndex(w.ctx, qid, idx)
 							probes = append(probes, fmt.Sprintf("Probe %d %d %d %s %s %s %s %s %s", q, T, idx, optTs(tb, e1), optTs(ta, e2),
